@@ -51,10 +51,10 @@ func (b *built) checkDescribe(scn string, x *index.Index, corp *index.Corpus, ar
 	}
 	c := b.c
 	for owner := 0; owner < 2; owner++ {
-		h := search.NewHandler(x, index.NewOwner(b.keyID[owner], b.sref[owner]))
-		if corp != nil {
-			h.SetCorpus(corp)
-		}
+		// the bare constructor (build overlay, shared with C09): search.NewHandler starts two
+		// goroutines per handler that live forever and registers the index in the process-global
+		// blob hub map, which pins one index+corpus per enumerated case (millions per process)
+		h := search.VerifC09BareHandler(x, index.NewOwner(b.keyID[owner], b.sref[owner]), corp)
 		for _, hh := range hGrid {
 			dr := &search.DescribeRequest{BlobRef: b.pn.Ref, At: types.Time3339(hTime(hh))}
 			res, err := h.Describe(ctxbg, dr)
